@@ -121,7 +121,7 @@ func evalAll(srcs []string) ([]*vk.Verdict, []info, error) {
 		vs[i] = o.V
 		if o.V != nil && (o.V.Class == "cl-rejects" || o.V.Class == "xgo-parser-rejects") {
 			cls := "converted-does-not-compile"
-			if strings.Contains(o.V.Detail, "cannot use lambda literal as type") {
+			if noTargetRe.MatchString(o.V.Detail) {
 				// a function literal was turned into a lambda where the callee gives no function type
 				// (builtin append, interface{} parameters)
 				cls = "funclit-to-lambda-without-target-type"
@@ -136,6 +136,10 @@ func evalAll(srcs []string) ([]*vk.Verdict, []info, error) {
 	}
 	return vs, ins, nil
 }
+
+// the listed finding is a lambda in a place that gives it no function type at all; a lambda that
+// is rejected against a function type (wrong arity, lost variadic, ...) is another defect
+var noTargetRe = regexp.MustCompile(`cannot use lambda literal as type (<nil>|interface\{\}|any|invalid type) `)
 
 var hazardRe = regexp.MustCompile(`type P struct \{\n\t(\w+) string\n\}\n\nfunc \(p \*P\) (\w+)\(\) string \{[^}]*\}\n\nfunc (\w+)\(a \.\.\.interface\{\}\)[\s\S]*\n\t(\w+) := 3\n`)
 
